@@ -67,7 +67,8 @@ def _judge_trace(ctx, trace_path, label, report=True):
     for dm in re.finditer(r"TRACE DRIFT at event\D+(\d+)", res.out):
         if report:
             ctx.report_drift("%s: event %s follows a step the property allows but the detailed specification does not "
-                             "(a refused write counted a shorter prefix than the bytes that fit)" % (label, dm.group(1)))
+                             "(a refused write that counted a shorter prefix than the bytes that fit, or read_buffer_ref returning only the "
+                             "newly stored bytes)" % (label, dm.group(1)))
     if ok:
         return True, None, res
     if res.violated and not m:
@@ -257,8 +258,8 @@ def _compact(plan):
             parts.append("S %s %d %d %s" % (a["kind"], a["cap"], a["len0"], " ".join(map(str, a["mem0"]))))
         elif k == "open":
             parts.append("O " + " ".join(map(str, a["ks"])))
-        elif k in ("write", "extend", "advance", "scribble"):
-            parts.append({"write": "W", "extend": "E", "advance": "A", "scribble": "X"}[k] + " " + " ".join(map(str, a["bs"])))
+        elif k in ("write", "extend", "advance", "scribble", "readclose"):
+            parts.append({"write": "W", "extend": "E", "advance": "A", "scribble": "X", "readclose": "Q"}[k] + " " + " ".join(map(str, a["bs"])))
         elif k == "read":
             parts.append("R %d %s %s" % (len(a["bs"]), " ".join(map(str, a["bs"])), " ".join(map(str, a["ks"]))))
         else:
@@ -359,7 +360,7 @@ def run(ctx):
     bins = core.build_harness(["vh-buffer"])
     ctx.coverage["rule"] = (
         "direction A: every path of <= MaxOps operations (open / nested open with and without cap_at, write, extend, "
-        "advance, scribble, read_buffer, close, close after initialized(), unwind) through the TLC-generated graph of "
+        "advance, scribble, read_buffer, read_buffer_ref on the view itself, close, close after initialized(), unwind) through the TLC-generated graph of "
         "MC_Buffer for each backing store, capacity and pre-existing length of the config, each executed on the real "
         "API; distinct by construction (different operation sequences); counted non-trivial when at least one operation "
         "carries >= 1 byte; evaluations additionally counts the events of the recorded random traces (direction B)")
@@ -367,7 +368,7 @@ def run(ctx):
     res = core.run_tlc("MC_Buffer.tla", "MC_%s.cfg" % tier, cwd=SPECDIR, workers=4,
                        timeout=300 if tier == "quick" else 1200, coverage=True)
     ctx.add_states(res, "MC_Buffer %s: invariants InitLeSpare Nested Contents OwnerBytes Untouched, "
-                        "action properties Frame WriteBack Refusal" % tier)
+                        "action properties Frame WriteBack Refusal SliceReported" % tier)
     if not res.ok:
         if res.violated:
             ctx.report("spec:%s" % res.violated, "Buffer.tla itself violates %s (design error)" % res.violated, {"tlc": res.out[-3000:]})
